@@ -328,6 +328,25 @@ def compare_json(mod, doc, genTexts=False, textnorm=norm_default):
                     out.append(('text-when-not-requested', '%s: %s present with genTexts off' % (where, f)))
                 else:
                     out.append(('text.' + f, '%s: unexpected %s %r' % (where, f, g.get(f))))
+    if not genTexts:
+        # ... and nowhere deeper either (e.g. inside the members of a compliance statement); revision descriptions
+        # are emitted in both modes, enumeration / bit labels are not text members
+        def scan(node, path):
+            if isinstance(node, dict):
+                for k, v in node.items():
+                    if k in ('enumeration', 'bits') and len(path) >= 2:
+                        continue
+                    if k in TEXT_KEYS and len(path) >= 2 and not (path[1] == 'revisions' and k == 'description'):
+                        out.append(('text-when-not-requested', '%s::%s: member %r present with genTexts off' % (
+                            mod['name'], '.'.join(str(x) for x in path), k)))
+                    scan(v, path + [k])
+            elif isinstance(node, list):
+                for i, v in enumerate(node):
+                    scan(v, path + [i])
+        for key in sorted(want & have):
+            if isinstance(doc[key], dict):
+                for k, v in doc[key].items():
+                    scan(v, [key, k])
     return out
 
 
